@@ -81,7 +81,7 @@ def parseStep (j : Json) : R Step := do
       | some k => .ok k
       | none => .error s!"scope id not in the regenerated table (or its verdict is unknown): {id}"
     return .diag (← parseLevel (← asStr (← field j "level"))) (← asNat (← field j "badness"))
-      (← parseFile (← field j "src")) kinds
+      (← parseFile (← field j "src")) (← asBool (fieldD j "filtered" (Json.bool false))) kinds
   | t => .error s!"bad step {t}"
 
 open Rattr.DiagScope in
